@@ -27,6 +27,7 @@ CONSTANTS Family,      \* which family of label variants the generator uses
 
 Labels ==
   CASE Family = "case" -> {<<"a">>, <<"A">>, <<"b">>, <<"a", "b">>, <<"A", "B">>}
+    [] Family = "case3" -> {<<"a">>, <<"A">>, <<"b">>}       \* small, for documents with three definitions (a duplicate between two others)
     [] Family = "ws" -> {<<"a", " ", "b">>, <<"A", "TAB", "LF", "b">>, <<" ", "a", " ", " ", "b", "TAB">>, <<"a", "b">>, <<"a", "LF", "b">>}
     [] Family = "sz" -> {<<"SZ">>, <<"s", "s">>, <<"S", "S">>, <<"CAPSZ">>, <<"s">>, <<"S", "s">>}
     [] Family = "idot" -> {<<"IDOT">>, <<"i", "COMBDOT">>, <<"i">>, <<"a">>}
